@@ -16,6 +16,7 @@ import vlib
 import fsharness as H
 from props import _stateful as S
 from props import _osexact as X
+from props import _ftp as F
 
 EXTRA_PROOF_MODULES = ("FsProofs.OsRefines",)   # errno_table_truthful, os_failure_truthful_and_harmless
 
@@ -127,6 +128,9 @@ def run(rep, tier, seed, deep=False):
         "when several preconditions fail at once any class whose documented condition holds is truthful (Ref.adm)",
         "mid-way failures of bulk operations on file/directory conflicts are 'loose': only the frame condition (C05) applies",
         "the root used as a file argument may be reported as ResourceNotFound or FileExpected",
+        "FTPFS (thorough tier only): loopback pyftpdlib 1.5.10 server, MLSD and LIST variants; RemoteConnectionError / watchdog "
+        "timeouts are infrastructure (retried on a fresh server; exit 2 when the server is unhealthy), PermissionDenied cannot "
+        "arise (the test user holds every permission)",
     ]
     try:
         steps = S.collect(S.WRITABLE, n_hist, n_ops, rng)
@@ -142,6 +146,12 @@ def run(rep, tier, seed, deep=False):
         # the errno -> fs.errors translation: OSFS against its transcription through the GENERATED table
         # (exact class, tree unchanged), the POSIX model against the kernel, the table against the live one
         X.run_os_exact(rep, steps, drv)
+        if not quick:
+            # FTPFS against a loopback pyftpdlib server, MLSD and LIST variants (thorough tier only): FTP reply codes
+            # are mapped to fs.errors by fs/ftpfs.py `ftp_errors`; the class is judged with Ref.adm like everywhere else
+            fsteps = F.run_ref_level(rep, drv, vlib.rng_for(seed, "c06-ftp"), judge, "C06", 60 * (3 if deep else 1), 15, 1200)
+            rep.programs += len(set(s.hist_id for s in fsteps))
+            steps = steps + fsteps
         fails = [s for s in steps if s.impl[0] == "err"]
         for s in fails[:: max(1, len(fails) // 6)][:6]:
             rep.sample({"backend": s.kind, "pre": [e[:2] for e in s.pre][:6], "op": H.op_json(s.op), "raised": s.impl[1]})
@@ -158,6 +168,16 @@ def replay(rep, case):
         return 1 if rep.violations else 0
     kind, pre, op = H.case_to_step(c)
     op = H.fix_op_bytes(op)
+    if kind in H.FTP_KINDS:
+        try:
+            s = F.one_step(kind, pre, op, 0)
+        finally:
+            H.cleanup_scratch()
+        m = H.model_replies(vlib.Driver(), [s])[0]
+        print("impl:", s.impl[:2], "adm:", m[3], "known-class:", F.known_class_c06(s, m))
+        if F.known_class_c06(s, m) is None:
+            judge(rep, s, m)
+        return 1 if (rep.violations or F.known_class_c06(s, m)) else 0
     b = H.build_state(kind, pre)
     try:
         pre2 = H.snapshot(b.fs)
